@@ -173,6 +173,7 @@ func (s *Sim) Step(tok string, env Env) ([]string, error) {
 	if err := s.wait(); err != nil {
 		return w.obs, err
 	}
+	w.Mon.afterStep(s, role, tok)
 	w.Mon.endOp()
 	return w.obs, nil
 }
